@@ -14,9 +14,15 @@
     {"op":"pair","a":"..","b":".."} -> {"pid":"..","back":["..",".."]}
     {"op":"decode","p":".."}        -> {"back":["..",".."]}
     {"op":"table"}                  -> {"table":[[name,id,count],...]}
+    text layer (Model/C13Text):
+    {"op":"images_txt","n":k,"entries":[[id,[7 pose tokens],cam,name,[[x,y,id],...]],...]} -> {"text":..}
+    {"op":"images_pass1","text":..} -> {"images":[[id,[pose tokens],cam,name]|null,...]}
+    {"op":"join","lines":[[tokens],...]} -> {"lines":[..]}        a line = its tokens joined by single blanks
+    {"op":"tokens","lines":[..]} -> {"tokens":[[..],...]}          re.findall('[^,\\s]+', line)
 -/
 import Kapture.Base.DriverCore
 import Kapture.Model.C13
+import Kapture.Model.C13Text
 
 open Lean Kapture Kapture.Driver Kapture.C05 Kapture.C13 Kapture.Gen.PairId
 
@@ -100,9 +106,27 @@ def handleLoop (j : Json) : Json :=
               Json.arr (p.2.map (fun o => Json.arr #[Json.str o.1, intJson o.2])).toArray])).toArray)]
   | _, _ => err "bad-input"
 
+def cs13 (j : Json) : Csv.Str := (str13 j).toList
+def us13 (s : Csv.Str) : Json := Json.str (String.ofList s)
+
 def handle (j : Json) : Json :=
   match (field? j "op").bind getStr? with
   | some "loop" => handleLoop j
+  | some "images_txt" =>
+    let es : List C13Text.ImageEntry := (arr13 (fieldD j "entries")).map (fun e =>
+      { id := (getInt? (nth13 e 0)).getD 0, pose := (arr13 (nth13 e 1)).map cs13, cam := (getInt? (nth13 e 2)).getD 0,
+        name := cs13 (nth13 e 3), p2d := (arr13 (nth13 e 4)).map (fun p => (cs13 (nth13 p 0), cs13 (nth13 p 1), cs13 (nth13 p 2))) })
+    Json.mkObj [("text", us13 (C13Text.imagesTxt ((getNat? (fieldD j "n")).getD 0) es))]
+  | some "images_pass1" =>
+    Json.mkObj [("images", Json.arr ((C13Text.imagesFirstPass (cs13 (fieldD j "text"))).map (fun o =>
+      match o with
+      | some (id, pose, cam, name) => Json.arr #[intJson id, Json.arr (pose.map us13).toArray, intJson cam, us13 name]
+      | none => Json.null)).toArray)]
+  | some "join" =>
+    Json.mkObj [("lines", Json.arr ((arr13 (fieldD j "lines")).map (fun l => us13 (C13Text.spaceJoin ((arr13 l).map cs13)))).toArray)]
+  | some "tokens" =>
+    Json.mkObj [("tokens", Json.arr ((arr13 (fieldD j "lines")).map (fun l =>
+      Json.arr ((C13Text.tokens (Csv.rstrip (cs13 l))).map us13).toArray)).toArray)]
   | some "pair" =>
     match (field? j "a").bind getInt?, (field? j "b").bind getInt? with
     | some a, some b =>
